@@ -8,6 +8,16 @@ proof   : lean/GeosModel/Props/C13.lean
 tie (T) : translate/globals_inventory.py regenerates lean/GeosModel/Generated/Globals.lean on every run from the symbol
           tables of the freshly built libgeos.so / libgeos_c.so (rel flavour) and from the headers; the theorem is
           re-checked against it.  A new plain global / function static / mutable member breaks the proof.
+          translate/shared_objects_inventory.py regenerates lean/GeosModel/Generated/SharedObjects.lean: every data member of the
+          classes that live inside a prepared geometry / built index with the member functions that write it; theorem
+          shared_objects_written_only_while_built demands that every writer is a build-phase function named in its statement
+          (a query method that starts writing its object — memo, counter, scratch buffer — breaks the proof).
+model   : Model/Conc/IndexedLocate.lean = IndexedPointInAreaLocator::locate on a built locator (ray-crossing counter of C07 fed
+          with the reported segments); Proofs/Conc/IndexedLocate.lean: the answer does not depend on report order / extra
+          segments and is the even-odd rule; Props: shared_built_locator_schedule_independent (all schedules).
+          stream `sharedlocate` (direct correspondence): one lattice polygon, prepared and fully built before sharing, asked
+          point predicates by 2..8 threads at once (different points, hundreds of rounds); every answer of every round must
+          be the one the model's location implies.
 support : harness/c13.cpp — 2..16 threads, own contexts, random scripts on private data and on shared pre-built immutable
           geometries, contexts created/destroyed inside the scripts; transcripts vs. the same script run alone (rel
           flavour); targeted scenarios for each race candidate; in the thorough tier (and in replays) the same under
@@ -24,6 +34,8 @@ PROPS = ["GeosModel.Props.C13"]
 DRV = "drv_c13"
 GEN = os.path.join(verif.LEAN, "GeosModel", "Generated", "Globals.lean")
 TRANSLATOR = os.path.join(verif.ROOT, "translate", "globals_inventory.py")
+GEN2 = os.path.join(verif.LEAN, "GeosModel", "Generated", "SharedObjects.lean")
+TRANSLATOR2 = os.path.join(verif.ROOT, "translate", "shared_objects_inventory.py")
 
 # race-candidate cell -> (targeted scenario of harness/c13.cpp, functions that touch it, what happens, minimal fix)
 CANDIDATES = {
@@ -67,6 +79,24 @@ def parse_exceptions():
     return {a: b for a, b in re.findall(r'\("((?:[^"\\]|\\.)*)",\s*\.(\w+)\)', m.group(1))}
 
 
+def parse_members():
+    """members of Generated/SharedObjects.lean -> list of dict(name, ty, decl, loc, writers)"""
+    out = []
+    if not os.path.exists(GEN2):
+        return out
+    for m in re.finditer(r'\{ name := "((?:[^"\\]|\\.)*)", ty := \.(\w+), decl := "((?:[^"\\]|\\.)*)", loc := "([^"]*)", writers := \[([^\]]*)\] \}', open(GEN2).read()):
+        out.append({"name": m.group(1), "ty": m.group(2), "decl": m.group(3), "loc": m.group(4), "writers": re.findall(r'"((?:[^"\\]|\\.)*)"', m.group(5))})
+    return out
+
+
+def parse_allowed_writers():
+    src = verif.strip_comments(open(os.path.join(verif.LEAN, "GeosModel", "Props", "C13.lean")).read())
+    m = re.search(r"def allowedWriters[^\n]*:=\s*\[(.*?)\n\]", src, re.S)
+    if not m:
+        return {}
+    return {a: (re.findall(r'"((?:[^"\\]|\\.)*)"', b), c) for a, b, c in re.findall(r'\("((?:[^"\\]|\\.)*)",\s*\[([^\]]*)\],\s*\.(\w+)\)', m.group(1))}
+
+
 def tsan_reports(text):
     """-> list of dict(kind, frames=[innermost GEOS function of each of the two accesses], block)"""
     out = []
@@ -104,6 +134,22 @@ def cell_of_report(rep):
     return None
 
 
+# ThreadSanitizer reports that belong to a recorded finding although they are not about one inventory cell: frames -> signature
+KNOWN_MECHANISMS = [
+    (("MCIndexSegmentSetMutualIntersector::", "SegmentSetMutualIntersector::setSegmentIntersector", "FastSegmentSetIntersectionFinder::"),
+     {"class": "scenario-fails", "scenario": "sharedprep"},
+     "per-call state (segment intersector pointer, query chains, counters) kept in the MCIndexSegmentSetMutualIntersector of a shared prepared geometry"),
+]
+
+
+def mechanism_of_report(rep):
+    fr = [f for f in rep["frames"] if f and f != "?"]
+    for pats, sig, what in KNOWN_MECHANISMS:
+        if fr and all(any(p_ in f for p_ in pats) for f in fr):
+            return sig, what
+    return None, None
+
+
 def run_tsan(ctx, args, timeout=1200):
     ok, out = verif.build_geos("tsan")
     if not ok:
@@ -116,6 +162,75 @@ def run_tsan(ctx, args, timeout=1200):
     return (rc, txt), None
 
 
+def run_model_sl(case):
+    rc, got = verif.run_driver_lines("sharedlocate", [case], driver_exe=DRV)
+    got = [g for g in got if g != ""]
+    return got[0] if got else "?"
+
+
+def run_impl_sl(exe, work, case, times=6):
+    """-> the first answer line that contains an X within `times` runs, else the last answer"""
+    p = os.path.join(work, "sl-%d.txt" % os.getpid())
+    with open(p, "w") as f:
+        f.write(case + "\n")
+    last = ""
+    for _ in range(times):
+        rc, txt = verif.sh([exe, "replay", p], timeout=300)
+        lines = [l for l in txt.split("\n") if l.strip()]
+        last = lines[-1] if lines else ""
+        if rc != 0 or "X" in last:
+            return last or ("crash rc=%d" % rc)
+    return last
+
+
+def sl_parse(case):
+    tk = case.split()
+    T, rounds, nr = int(tk[1]), int(tk[2]), int(tk[3])
+    p = 4
+    rings = []
+    for _ in range(nr):
+        n = int(tk[p]); rings.append(tk[p:p + 1 + 2 * n]); p += 1 + 2 * n
+    pts = []
+    for _ in range(T):
+        k = int(tk[p]); pts.append([(tk[p + 1 + 2 * i], tk[p + 2 + 2 * i]) for i in range(k)]); p += 1 + 2 * k
+    return rounds, rings, pts
+
+
+def sl_make(rounds, rings, pts):
+    s = ["SL", str(len(pts)), str(rounds), str(len(rings))]
+    for r in rings:
+        s += r
+    for v in pts:
+        s += [str(len(v))] + [c for q in v for c in q]
+    return " ".join(s)
+
+
+def shrink_sl(exe, work, case, exp):
+    try:
+        rounds, rings, pts = sl_parse(case)
+    except Exception:
+        return case, exp
+    rounds = max(rounds, 2000)
+    best = (sl_make(rounds, rings, pts), exp)
+    changed, guard = True, 0
+    while changed and guard < 40:
+        changed = False
+        guard += 1
+        cands = []
+        if len(pts) > 2:
+            cands += [pts[:i] + pts[i + 1:] for i in range(len(pts))]
+        for i, v in enumerate(pts):
+            if len(v) > 1:
+                cands += [pts[:i] + [v[:j] + v[j + 1:]] + pts[i + 1:] for j in range(len(v))]
+        for c in cands[:24]:
+            line = sl_make(rounds, rings, c)
+            ans = run_impl_sl(exe, work, line)
+            if "X" in ans:
+                pts, best, changed = c, (line, ans), True
+                break
+    return best
+
+
 def run(ctx):
     ctx.base_trust([
         "interleaving model (Model/Conc/Interleave.lean): sequential consistency only, no weak memory; race = two threads simultaneously enabled on conflicting non-atomic accesses",
@@ -123,6 +238,11 @@ def run(ctx):
         "translate/globals_inventory.py (readelf, c++filt, regex lookup of the declared type; fails loudly when a symbol cannot be resolved)",
         "exception list of inventory_disciplined: hand classification (neverWritten / notWrittenByConstMethods / excludedLazyIndex / perCallTemporary / legacyNonReentrantApi) justified by reading the source, not by proof",
         "multi-threaded harness and ThreadSanitizer runs are support: they see only the schedules that happen",
+        "translate/shared_objects_inventory.py: textual scan (explicit list of headers: prepared geometries, point-in-area locators, FastSegmentSetIntersectionFinder, "
+        "MCIndexSegmentSetMutualIntersector, IndexedFacetDistance, FacetSequence, TemplateSTRtree, MonotoneChain); writes through references / pointers passed to "
+        "other functions are invisible to it; RelateNG's prepared mode is not inventoried",
+        "Model/Conc/IndexedLocate.lean: the shared-memory footprint of locate() on a built locator (reads the index, everything else local to the call) is read off the "
+        "source and guarded by the member inventory; stream sharedlocate ties answers, not footprints",
     ])
     ok, out = verif.build_geos("rel")
     if not ok:
@@ -138,8 +258,17 @@ def run(ctx):
     if not translator_ok:
         ctx.violation("globals inventory cannot be regenerated from the current tree (a symbol or `mutable` member could not be resolved): %s" % tout.strip()[-600:],
                       {"kind": "tie-broken", "translator": "translate/globals_inventory.py", "output": tout[-3000:]}, nofail=True)
+    with verif.Lock("lake"):
+        rc2, tout2 = verif.sh(["python3", TRANSLATOR2, "--repo", verif.REPO, "--out", GEN2], timeout=600)
+    ctx.cov["translator_shared_objects"] = tout2.strip()[-400:]
+    if rc2 != 0:
+        translator_ok = False
+        ctx.violation("the member inventory of the classes inside prepared geometries cannot be regenerated from the current tree (a header moved, or a data member line could not be parsed): %s" % tout2.strip()[-600:],
+                      {"kind": "tie-broken", "translator": "translate/shared_objects_inventory.py", "output": tout2[-3000:]}, nofail=True)
     cells = parse_generated()
     exc = parse_exceptions()
+    members = parse_members()
+    allowed = parse_allowed_writers()
     proved = ctx.prove(PROPS, extra_targets=(DRV,)) and translator_ok
     plain = [c for c in cells if c["ty"] == "plain"]
     ctx.cov["inventory"] = {"cells": len(cells), "by_kind": {k: sum(1 for c in cells if c["kind"] == k) for k in sorted({c["kind"] for c in cells})},
@@ -155,6 +284,29 @@ def run(ctx):
                       {"kind": "proof-broken", "theorem": "GeosModel.Conc.inventory_disciplined", "cell": c, "signature": sig,
                        "hint": "make it const / std::atomic / thread_local, or guard it; the thorough tier runs ThreadSanitizer to look for a concrete racing schedule"},
                       nofail=True, signature=sig)
+    # members of shared-after-build objects written by a function that is not a named build-phase function: this is what makes
+    # shared_objects_written_only_while_built fail
+    safe_ty = {"atomic", "mutex", "threadLocal", "constAfterInit", "guard"}
+    bad_members = []
+    for mb in members:
+        if mb["ty"] in safe_ty:
+            continue
+        extra = [w for w in mb["writers"] if w not in allowed.get(mb["name"], ([], ""))[0]]
+        if extra:
+            bad_members.append((mb, extra))
+    ctx.cov["shared_objects"] = {"members": len(members), "classes": len({m_["name"].rsplit("::", 1)[0] for m_ in members}),
+                                 "safe_by_type": sum(1 for m_ in members if m_["ty"] in safe_ty),
+                                 "written_by_some_function": sum(1 for m_ in members if m_["writers"]),
+                                 "allowed_writer_entries": len(allowed),
+                                 "by_reason": {k: sum(1 for v in allowed.values() if v[1] == k) for k in sorted({v[1] for v in allowed.values()})},
+                                 "offending": [m_["name"] for m_, _ in bad_members]}
+    for mb, extra in bad_members:
+        sig = {"class": "shared-object-written-after-build", "member": mb["name"], "writers": sorted(extra)}
+        ctx.violation("data member `%s` (%s, %s) of a class whose objects are shared once built is written by %s — not one of the build-phase "
+                      "functions named in shared_objects_written_only_while_built" % (mb["name"], mb["decl"], mb["loc"], ", ".join(sorted(extra))),
+                      {"kind": "proof-broken", "theorem": "GeosModel.Conc.shared_objects_written_only_while_built", "member": mb, "offending_writers": sorted(extra),
+                       "signature": sig, "hint": "keep per-call state in locals of the call, or make the member std::atomic / guard it; stream `sharedlocate` "
+                       "and the thorough tier (ThreadSanitizer) look for a concrete failing schedule"}, nofail=True, signature=sig)
     # ---- race candidates that are still plain: genuine findings on this tree
     found_input = False
     for name, why in sorted(exc.items()):
@@ -201,6 +353,40 @@ def run(ctx):
             ctx.violation("a thread's transcript differs from the sequential run of the same script (%s): case %s -> %s (model: %s)" % (kind, case[:200], exp, got),
                           {"kind": "failing-input", "stream": "threads", "case": case, "impl": exp, "model": got, "signature": sig,
                            "replay_cmd": "%s replay <file with the case line>" % exe}, signature=sig)
+        # ---- direct correspondence: a prepared polygon built before sharing, point predicates from all threads at once, against
+        # the Lean model of IndexedPointInAreaLocator::locate
+        nsl = 160 if quick else 6000
+        r = verif.run_stream(exe, "sharedlocate", ctx.seed, nsl, ctx.work, shards=4, driver_exe=DRV, timeout=3000)
+        corr["sharedlocate"] = {"cases": r["cases"], "disagreements": len(r["disagreements"]) + r.get("more_disagreements", 0), "distribution": r["stats"]}
+        ctx.cov["samples"] += r.get("samples", [])[:1]
+        if r["error"]:
+            crashed = "harness exit" in r["error"]
+            sig = {"class": "shared-prepared-polygon-point-predicates", "effect": "crash"}
+            ctx.violation("stream sharedlocate (point predicates of one pre-built prepared polygon from several threads) %s: %s" % ("crashed" if crashed else "could not run", r["error"][:600]),
+                          {"kind": "failing-input" if crashed else "tie-broken", "stream": "sharedlocate", "detail": r["error"][-3000:], "signature": sig},
+                          nofail=not crashed, signature=sig if crashed else None)
+            found_input = found_input or crashed
+        seen_sl = set()
+        for idx, case, exp, got in r["disagreements"]:
+            sched = "X" in exp
+            key = "schedule-dependent" if sched else "model-mismatch"
+            if key in seen_sl:
+                continue
+            seen_sl.add(key)
+            if sched:
+                # shrink: fewer threads / fewer points while some answer still deviates (each candidate is tried several times)
+                case2, exp2 = shrink_sl(exe, ctx.work, case, exp)
+                sig = {"class": "shared-prepared-polygon-point-predicates", "effect": "schedule-dependent-answer"}
+                found_input = True
+                ctx.violation("point predicates (contains / intersects / covers / …XY / distance) of ONE prepared polygon that was fully built before sharing give answers "
+                              "that differ from the sequential ones when %s threads ask different points at once: letters per thread %s, model (and sequential run) %s"
+                              % (case2.split()[1], exp2, run_model_sl(case2)),
+                              {"kind": "failing-input", "stream": "sharedlocate", "case": case2, "impl": exp2, "model": run_model_sl(case2), "signature": sig,
+                               "replay_cmd": "bin/check C13 --replay <this file>  (runs the case 20 times)"}, signature=sig)
+            else:
+                ctx.violation("stream sharedlocate: the location the prepared point predicates report, asked alone, differs from Model/Conc/IndexedLocate.lean "
+                              "(even-odd rule): implementation %s, model %s — the property (no interference) is not refuted by this, the correspondence is" % (exp, got),
+                              {"kind": "tie-broken", "correspondence": "sharedlocate", "stream": "sharedlocate", "case": case, "impl": exp, "model": got}, nofail=True)
         # targeted scenarios in the rel flavour (a crash or a wrong answer is a failing execution)
         scen_res = {}
         scen_cell = {"refcount": "GeometryFactory::_refCount", "interrupt": "(anonymous namespace)::requested", "version": "GEOSversion::version",
@@ -233,13 +419,23 @@ def run(ctx):
                 r2, e2 = run_tsan(ctx, ["scenario", scen, "4", "6" if scen == "freshread" else "1500"], timeout=900)
                 if r2:
                     reps += tsan_reports(r2[1])
+            # the stream `sharedlocate` under TSan: racing accesses inside objects that were built before sharing
+            r3, e3 = run_tsan(ctx, ["sharedlocate", str(ctx.seed), "12", os.path.join(ctx.work, "tsan-sl")], timeout=1800)
+            if r3:
+                reps += tsan_reports(r3[1])
             byc = {}
             for rep in reps:
                 cell = cell_of_report(rep)
-                key = cell or ("unmapped:" + ",".join(sorted({short_fn(f) for f in rep["frames"]})))
+                msig, _ = mechanism_of_report(rep) if not cell else (None, None)
+                key = cell or (("mechanism:" + json.dumps(msig, sort_keys=True)) if msig else ("unmapped:" + ",".join(sorted({short_fn(f) for f in rep["frames"]}))))
                 byc.setdefault(key, []).append(rep)
             ctx.cov["tsan"] = {"reports": len(reps), "by_cell": {k: len(v) for k, v in byc.items()}}
             for key, v in byc.items():
+                if key.startswith("mechanism:"):
+                    msig, mwhat = mechanism_of_report(v[0])
+                    found_input = True
+                    ctx.violation("ThreadSanitizer: %s in %s — %s" % (v[0]["kind"], ", ".join(sorted({short_fn(f) for f in v[0]["frames"]})), mwhat),
+                                  {"kind": "failing-input", "signature": msig, "tsan_report": v[0]["block"], "count": len(v)}, signature=msig)
                 if key.startswith("unmapped:"):
                     sig = {"class": "tsan-race", "where": key[9:]}
                     found_input = True
@@ -248,7 +444,7 @@ def run(ctx):
     ctx.cov["support_correspondence"] = corr
     if not proved:
         lf = getattr(ctx, "lean_failure", None) or {}
-        if not unexcused and (lf or translator_ok):
+        if not unexcused and not bad_members and (lf or translator_ok):
             ctx.violation("Lean obligations for C13 no longer check: " + "; ".join(str(i) for i in lf.get("items", [])[:5]),
                           {"kind": "proof-broken", "lean": lf, "failing_input_also_found": found_input}, nofail=True)
 
@@ -275,6 +471,27 @@ def replay(ctx, path):
             if rc != 0 or not re.search(r"wrong_results=0\b", txt):
                 print("VIOLATION property=C13 replay=%s" % path)
                 return 1
+        return 0
+    if r.get("case") and r.get("stream") == "sharedlocate":
+        verif.build_geos("rel")
+        exe, _ = verif.build_harness("c13", "rel")
+        verif.lake_build([DRV])
+        work = os.path.join(verif.BUILD, "work")
+        os.makedirs(work, exist_ok=True)
+        model = run_model_sl(r["case"])
+        print("case  :", r["case"])
+        print("model :", model, " (location letters per thread, Model/Conc/IndexedLocate.lean)")
+        bad = 0
+        for i in range(20):
+            ans = run_impl_sl(exe, work, r["case"], times=1)
+            if ans != model:
+                bad += 1
+                if bad <= 3:
+                    print("impl  :", ans, " (X = some answer of some round deviated from the point's sequential location)")
+        print("20 runs, %d differ from the model" % bad)
+        if bad:
+            print("VIOLATION property=C13 replay=%s" % path)
+            return 1
         return 0
     if r.get("case"):
         verif.build_geos("rel")
